@@ -87,7 +87,7 @@ def run(c, facts, tier):
         key = [k for k in facts.fns if re.match(r"<%s as (Default)?Parseable(<.*>)?>::parse$" % ty, k)]
         refs = []
         if key:
-            g.walk(b.fn_ir(key[0]), lambda x: refs.append(x["fn"]) if x["t"] == "ref" else None, follow=False)
+            g.walk(b.fn_ir(key[0]), lambda x: refs.append(x["fn"]) if x["t"] == "ref" else None, follow=True)
         c.ob("C07.convert", key[0] if key else ty, "%s count is parsed by the u64 parser into a u64 field" % ty, ftys == {"u64"} and "<u64 as Parseable>::parse" in refs and not [r for r in refs if re.match(r"<(u8|u16|u32|i\d+) as Parseable>", r)], "payload types %s; number parsers used: %s" % (sorted(ftys), sorted(set(r for r in refs if "Parseable" in r))))
     # ---------------------------------------------------------------- E2: casts, lossy calls, arithmetic
     m = mir.load(True)
